@@ -280,6 +280,16 @@ def independence_bounded(p):
                 if a != b:
                     failures.append(dict(what=f"trajectory of a particle changes when other release rows are {tag}", pid_new=new, pid_ref=old))
                     break
+        # three release times listed site by site: the order of first appearance in the file (t1, t2, t0) is neither
+        # ascending nor descending (pids still follow the release order: by time, then file order)
+        cases += 1
+        rows3 = [*rows, (iso(1.0), 4.9, 5.6, 8.0)]
+        ref3 = go("ref3", rows3)
+        site = go("bysite", [rows3[2], rows3[4], rows3[0], rows3[3], rows3[1]])
+        for pid in range(5):
+            if _trajectory(site, pid) != _trajectory(ref3, pid):
+                failures.append(dict(what="trajectory of a particle changes when the release rows are listed site by site (three times, first appearance t1, t2, t0)", pid=pid))
+                break
         # a neighbour dying (IBM kill -> removed at the next record): finding D10 when this fails
         for sch in ("EF", "RK4"):
             cases += 1
